@@ -48,6 +48,8 @@ def _config_child(module_name, cfg, queries, Ks, timeout_s, seed, conn, extra_mo
         w = World(default_cap=info["default_cap"], dict_keys=info["dict_keys"])
         w.list_caps.update(info["list_caps"])
         w.publication_functions = set(info.get("publication_functions", ()))
+        w.fork_functions = set(info.get("fork_functions", ()))
+        w.files = dict(info.get("files", {}))
         S = driver.build(w, built["scenario"], built["args"])
         res["build_s"] = round(time.time() - t0, 2)
         res["stats"] = S.stats()
